@@ -176,6 +176,24 @@ def r4_enumerator(ctx, rep, R='C19.R4'):
             norm(rets[0].value.comparators[0]).endswith('.ident')
     rep.check(okeq, R, 'ThreadProxy.__eq__ compares ident', 'ThreadProxy.__eq__ does not compare '
               'thread identifiers', key='proxy:eq', func='threadsupport.ThreadProxy.__eq__')
+    # hash/eq agreement: membership tests in hashed containers use __hash__ first
+    hs = tp.methods.get('__hash__')
+    ex = tsrules.exploration(ctx)
+    hashed = any(e[0] == 'snapshot-hashed' for tr in ex.transitions for e in tr.events)
+    if hs is not None:
+        rets = [n for n in ast.walk(hs.node) if isinstance(n, ast.Return) and n.value is not None]
+        okh = len(rets) == 1 and isinstance(rets[0].value, ast.Call) and \
+            dotted(rets[0].value.func) == 'hash' and norm(rets[0].value.args[0]).endswith('.ident')
+        rep.check(okh, R, 'ThreadProxy.__hash__ hashes what __eq__ compares (ident)',
+                  'ThreadProxy.__hash__ returns %s while __eq__ compares idents: two proxies of the '
+                  'same thread (a fresh DummyThread per enumeration for _thread threads) are equal but '
+                  'hash differently, so set/dict membership misses them'
+                  % (norm(rets[0].value) if rets else '?'), key='proxy:hash',
+                  func='threadsupport.ThreadProxy.__hash__', where=ctx.where(hs, hs.node))
+    rep.check(not hashed or hs is not None, R,
+              'the snapshot is compared by equality (list membership) or ThreadProxy is hashable '
+              'consistently', 'the thread snapshot is kept in a set/frozenset but ThreadProxy defines '
+              '__eq__ without __hash__', key='proxy:hashed-container', func='runner.TestResult.startTest')
     dt = m.cls('threadsupport.DummyThread')
     al = dt.methods.get('is_alive')
     okal = al is not None and any(isinstance(n, ast.Return) and isinstance(n.value, ast.Constant)
